@@ -256,6 +256,7 @@ def run_queue(ctx, replay, pid, mine, dims, opts):
     if replay:
         obj = json.load(open(replay))
         behs = [obj["behaviour"]]
+        behs[0]["_stored_id"] = behs[0].get("id", 0)
         behs[0]["id"] = 1
     else:
         behs = []
@@ -318,7 +319,9 @@ def run_queue(ctx, replay, pid, mine, dims, opts):
 
     # ---- replay on the real queue --------------------------------------------
     binary = ctx.build_harness("queuecheck")
-    events = ctx.run_shards(binary, behs)
+    # a stored artefact of variant (b) is replayed by variant (b) exactly as stored (its cfg holds the dimensions)
+    replay_real = bool(replay) and any(b.get("_stored_id", 0) >= 1000000 for b in behs)
+    events = [] if replay_real else ctx.run_shards(binary, behs)
     by_id = {b["id"]: b for b in behs}
 
     # binding self-test: a corrupted and a truncated copy of an accepted trace
@@ -364,6 +367,16 @@ def run_queue(ctx, replay, pid, mine, dims, opts):
         top = cand[:nreal // 2]
         pick = top + vlib.sample(ctx.rng, cand[len(top):], nreal - len(top))
         rb = []
+        if replay_real:
+            pick = []
+            for b in behs:
+                nb = json.loads(json.dumps(b))
+                nb["id"] = 1000001
+                rb.append(nb)
+                by_id[nb["id"]] = nb
+                real_ids.add(nb["id"])
+        elif replay:
+            pick = []
         for k, b in enumerate(pick):
             nb = json.loads(json.dumps(b))
             nb["id"] = 1000000 + k + 1
@@ -383,7 +396,7 @@ def run_queue(ctx, replay, pid, mine, dims, opts):
             rb.append(nb)
             by_id[nb["id"]] = nb
             real_ids.add(nb["id"])
-        ev2 = ctx.run_shards(binary, rb, test="TestReplayReal", shards=8, name="real")
+        ev2 = ctx.run_shards(binary, rb, test="TestReplayReal", shards=8, name="real") if rb else []
         stuck = [e for e in ev2 if e["e"] == "Stuck"]
         if stuck:
             raise vlib.Infra("variant (b): the spool of trace %s did not drain within the harness time-out "
